@@ -4,7 +4,7 @@ NEXT Next
 CONSTANTS
   ParamSpace <- ParamsReplayThorough
   Levels <- L3
-  MaxLen = 5
+  MaxLen = 4
 INVARIANT TypeOK
 INVARIANT StopRule
 INVARIANT ReduceRule
